@@ -466,9 +466,11 @@ class List(list, base.Symbolic, pg_typing.CustomTyping):
   def _formalized_value(self, idx: int, value: Any):
     """Get transformed (formal) value from user input."""
     allow_partial = base.accepts_partial(self)
+    # Containers created for `value` keep this list's own partial mode (an
+    # enclosing `pg.allow_partial` scope only affects the validation).
     value = base.from_json(
         value,
-        allow_partial=allow_partial,
+        allow_partial=self._allow_partial,
         root_path=utils.KeyPath(idx, self.sym_path),
     )
     if self._value_spec and flags.is_type_check_enabled():
